@@ -569,3 +569,70 @@ example : hit (5 : ℚ) (-5) 5 5 15 0 1 ∧ ¬ hit (5 : ℚ) (-5) 5 5 (-15) 0 1 
   unfold hit Straddle T2 xstar T1; norm_num
 
 end C11B
+
+/-! ### C05: completeness of line/line in general position (from `llModel`) -/
+
+namespace C05C
+open Gen C05M C11B
+variable {K : Type} [Field K] [LinearOrder K] [IsStrictOrderedRing K]
+
+/-- **line/line completeness**: two non-vertical lines (beyond `isclose`'s zone) whose slopes differ by at least the
+    parallelism tolerance and that are not both inside the horizontality zone: if they meet at parameters t1 (first
+    line) and t2 (second line) with t1 in the window [2e-7, 1 + 2e-7] and t2 in [2e-7, 1) — in particular for every
+    crossing at least 1e-4 inside both segments — then `Line.intersections(Line)` reports exactly `[t1, t2]`. -/
+theorem line_line_complete (p0x p0y p1x p1y q0x q0y q1x q1y t1 t2 : K)
+    (hp : ¬ isclose p1x p0x ((1 : K) / 1000000000) 0) (hq : ¬ isclose q0x q1x ((1 : K) / 1000000000) 0)
+    (hh : ¬ (isclose q0y q1y ((1 : K) / 1000000000) 0 ∧ isclose p0y p1y ((1 : K) / 1000000000) 0))
+    (hs : (1 : K) / 5000000 ≤ |(p1y - p0y) / (p1x - p0x) - (q1y - q0y) / (q1x - q0x)|)
+    (hx : p0x + t1 * (p1x - p0x) = q0x + t2 * (q1x - q0x))
+    (hy : p0y + t1 * (p1y - p0y) = q0y + t2 * (q1y - q0y))
+    (w1 : (1 : K) / 5000000 ≤ t1 ∧ t1 ≤ (5000001 : K) / 5000000)
+    (w2 : (1 : K) / 5000000 ≤ t2 ∧ t2 < 1) :
+    line_line p0x p0y p1x p1y q0x q0y q1x q1y = [t1, t2] := by
+  rw [line_line_eq_model]
+  have hp' : ¬ isclose p0x p1x ((1 : K) / 1000000000) 0 := by rw [C05.isclose_comm]; exact hp
+  have hq' : ¬ isclose q1x q0x ((1 : K) / 1000000000) 0 := by rw [C05.isclose_comm]; exact hq
+  have hdp : p1x - p0x ≠ 0 := sub_ne_zero.mpr (C05.not_isclose_ne (by norm_num) hp)
+  have hdq : q1x - q0x ≠ 0 := sub_ne_zero.mpr (C05.not_isclose_ne (by norm_num) hq')
+  unfold llModel
+  simp only [hq, hp', false_and, and_false, if_false, hh, or_self, hp]
+  rw [if_neg (not_lt.mpr hs)]
+  set s12 := (p1y - p0y) / (p1x - p0x) with h12
+  set s34 := (q1y - q0y) / (q1x - q0x) with h34
+  have e12 : p1y - p0y = s12 * (p1x - p0x) := by rw [h12]; field_simp
+  have e34 : q1y - q0y = s34 * (q1x - q0x) := by rw [h34]; field_simp
+  have hsne : s12 - s34 ≠ 0 := by
+    intro h0; rw [h0, abs_zero] at hs; norm_num at hs
+  -- the common point
+  set X := p0x + t1 * (p1x - p0x) with hX
+  have hXq : X = q0x + t2 * (q1x - q0x) := hx
+  have hxval : (s12 * p0x - p0y - s34 * q0x + q0y) / (s12 - s34) = X := by
+    rw [div_eq_iff hsne]
+    have h1 : p0y + t1 * (s12 * (p1x - p0x)) = q0y + t2 * (s34 * (q1x - q0x)) := by rw [← e12, ← e34]; exact hy
+    have a1 : t1 * (p1x - p0x) = X - p0x := by rw [hX]; ring
+    have a2 : t2 * (q1x - q0x) = X - q0x := by rw [hXq]; ring
+    have h2 : p0y + s12 * (X - p0x) = q0y + s34 * (X - q0x) := by rw [← a1, ← a2]; linarith [h1]
+    linarith [h2]
+  simp only [hxval]
+  have hyval : s12 * (X - p0x) + p0y = p0y + t1 * (p1y - p0y) := by rw [e12, hX]; ring
+  have ht1 : line_tOfPoint_sworn_v p0x p0y p1x p1y X (s12 * (X - p0x) + p0y) = t1 := by
+    rw [C05.sworn_x hp, hX]; field_simp; ring
+  have ht2 : line_tOfPoint_sworn_v q0x q0y q1x q1y X (s12 * (X - p0x) + p0y) = t2 := by
+    rw [C05.sworn_x hq', hXq]; field_simp; ring
+  rw [ht1, ht2]
+  have t1pos : 0 < t1 := by linarith [w1.1]
+  have n1 : ¬ ((X - p0x) * (p1x - p0x) ≤ 0 ∧ (s12 * (X - p0x) + p0y - p0y) * (p1y - p0y) ≤ 0) := by
+    rintro ⟨h, _⟩
+    have : (X - p0x) * (p1x - p0x) = t1 * ((p1x - p0x) * (p1x - p0x)) := by rw [hX]; ring
+    rw [this] at h
+    have hp2 : 0 < (p1x - p0x) * (p1x - p0x) := mul_self_pos.mpr hdp
+    nlinarith
+  have n2 : ¬ ((X - q1x) * (q0x - q1x) ≤ 0 ∧ (s12 * (X - p0x) + p0y - q1y) * (q0y - q1y) ≤ 0) := by
+    rintro ⟨h, _⟩
+    have : (X - q1x) * (q0x - q1x) = (1 - t2) * ((q1x - q0x) * (q1x - q0x)) := by rw [hXq]; ring
+    rw [this] at h
+    have hq2 : 0 < (q1x - q0x) * (q1x - q0x) := mul_self_pos.mpr hdq
+    nlinarith [w2.2]
+  rw [if_neg n1, if_neg n2, winFilter_eq, if_pos ⟨w1, ⟨w2.1, by linarith [w2.2]⟩⟩]
+
+end C05C
